@@ -93,6 +93,17 @@ def Expression.withParameter (x : Expression) (p : Ident) (v : Env) : Res Expres
   | .err _ => .panic "expression.rs:with_parameter:unwrap"
   | .panic p => .panic p
 
+/-- the predicate of a parameter's assertion: the leaf `❰p❱` -/
+def paramLeaf (p : Ident) : Env := newLeaf h (identCbor TAG_PARAMETER p)
+
+/-- `objects_for_parameter(p)` = `envelope.objects_for_predicate(p)` -/
+def Expression.objectsForParameter (x : Expression) (p : Ident) : Res (List Env) :=
+  objectsForPredicate x.envelope (paramLeaf h p)
+
+/-- `object_for_parameter(p)` = `envelope.object_for_predicate(p)` -/
+def Expression.objectForParameter (x : Expression) (p : Ident) : Res Env :=
+  objectForPredicate x.envelope (paramLeaf h p)
+
 /-- `Expression::try_from(envelope)` -/
 def Expression.parse (e : Env) : Res Expression :=
   match subjectLeaf e with
